@@ -123,7 +123,23 @@ func runC17(c *core.Ctx, o Options) {
 	decoderRules(c)
 	c.RulePrefix = ""
 	c.Explanation += " D (premise, = C02.R3–R8): the decoder puts each value into its own field of its own entry — Item switch, per-entry loop fed by the split pieces, exact value extraction, anchored separator and needles, partition, item loops."
-	c.RuleMin = map[string]int{"P1": 10, "S": 15, "V": 43, "T": 2, "P2": 2, "D": 18}
+	// P1 (setters of the structure replace, they do not merge): Message.SetBody/SetHeader/SetTrailer put their argument into the
+	// part they name and KeyValue.Set keeps the given value object — on the one path through the setter (an unexported helper it
+	// delegates to included) there is one store to that field, of the argument or of an ordered copy of it, and nothing else
+	// happens. (A body that is appended to keeps the fields of the previous body; a value updated "in place" through Value() loses
+	// its populated flag.)
+	for _, sp := range []struct{ rel, fn, typ, field string }{{"fix", "Message.SetBody", "Message", "body"}, {"fix", "Message.SetHeader", "Message", "header"}, {"fix", "Message.SetTrailer", "Message", "trailer"}, {"fix", "KeyValue.Set", "KeyValue", "Value"}} {
+		fn := c.Func(sp.rel, sp.fn)
+		f := c.Field(sp.rel, sp.typ, sp.field)
+		if !c.Anchor("plain setter "+sp.fn, fn != nil && f != nil && len(fn.Params) == 2, sp.fn, posOf(fn)) {
+			continue
+		}
+		bad := plainSetterProblem(fn, f, sp.typ+"."+sp.field, 0)
+		c.Check(bad == "", "P1", sp.fn, "puts its argument into "+sp.typ+"."+sp.field+" and does nothing else", fn.Pos(), "one store of the parameter",
+			sp.fn+" does not simply replace "+sp.typ+"."+sp.field+" with its argument ("+bad+"): what was there before leaks into the serialized message, or what is given is not what is kept")
+	}
+	c.Explanation += " P1 also: Message.SetBody/SetHeader/SetTrailer and KeyValue.Set are plain replacing setters (one store of the argument, or of an ordered copy of it, on the one interprocedural path; nothing else)."
+	c.RuleMin = map[string]int{"P1": 14, "S": 15, "V": 43, "T": 2, "P2": 2, "D": 18}
 	c.MinObl = 60
 }
 
@@ -206,3 +222,61 @@ func checkEntryStorage(c *core.Ctx, rule string) {
 }
 
 var _ = token.NoPos
+
+
+// plainSetterProblem: fn(recv, arg) has one path on which it stores arg (or an ordered copy of it) into field f of recv, once,
+// and does nothing else — or hands both on, unchanged, to a function of the package for which that holds. "" if so.
+func plainSetterProblem(fn *ssa.Function, f *types.Var, what string, depth int) string {
+	if fn == nil || len(fn.Params) != 2 || depth > 3 {
+		return "the setter's shape is not (receiver, argument)"
+	}
+	ps, _ := an.EnumPaths(fn, 16)
+	var ret []*an.Path
+	for _, p := range ps {
+		if p.Return != nil {
+			ret = append(ret, p)
+		}
+	}
+	if len(ret) != 1 {
+		return fmt.Sprintf("%d paths through %s (a plain setter has one)", len(ret), an.NameOf(fn))
+	}
+	p := ret[0]
+	stores, delegated := 0, false
+	for _, in := range p.InstrSeq() {
+		switch x := in.(type) {
+		case *ssa.Store:
+			if _, isLocal := x.Addr.(*ssa.Alloc); isLocal {
+				continue
+			}
+			fa, ok := x.Addr.(*ssa.FieldAddr)
+			val := an.ResolveOnPath(x.Val, p)
+			switch {
+			case ok && an.FieldOf(fa) == f && fa.X == ssa.Value(fn.Params[0]) && an.Unwrap(val) == ssa.Value(fn.Params[1]):
+				stores++
+			case ok && an.FieldOf(fa) == f && fa.X == ssa.Value(fn.Params[0]) && isOrderedCopy(val, an.Render(fn.Params[1]), p):
+				stores++
+			default:
+				return an.NameOf(fn) + " stores " + an.RenderOnPath(x.Val, p) + " to " + an.RenderOnPath(x.Addr, p)
+			}
+		case *ssa.Call:
+			if b, isB := x.Call.Value.(*ssa.Builtin); isB && (b.Name() == "append" || b.Name() == "copy" || b.Name() == "len") {
+				continue
+			}
+			cal := an.StaticCallee(&x.Call)
+			if cal != nil && cal.Pkg == fn.Pkg && len(x.Call.Args) == 2 && x.Call.Args[0] == ssa.Value(fn.Params[0]) && an.Unwrap(x.Call.Args[1]) == ssa.Value(fn.Params[1]) && !delegated {
+				if why := plainSetterProblem(cal, f, what, depth+1); why != "" {
+					return why
+				}
+				delegated = true
+				continue
+			}
+			return an.NameOf(fn) + " calls " + an.Render(x)
+		case *ssa.Go, *ssa.Defer, *ssa.MapUpdate, *ssa.Send:
+			return an.NameOf(fn) + " does more than store"
+		}
+	}
+	if delegated && stores == 0 || !delegated && stores == 1 {
+		return ""
+	}
+	return fmt.Sprintf("%d stores of the argument to %s in %s", stores, what, an.NameOf(fn))
+}
